@@ -201,6 +201,8 @@ def finite_discrete_gibbs_kernel(
     <class 'liesel.goose.gibbs.GibbsKernel'>
 
     """
+    outcomes_from_prior = False
+
     if outcomes is not None:
         outcomes = jnp.asarray(outcomes)
     else:
@@ -212,6 +214,7 @@ def finite_discrete_gibbs_kernel(
                 outcomes = jnp.array([0, 1], dtype=dist.dtype)
             case tfd.FiniteDiscrete():
                 outcomes = dist.outcomes
+                outcomes_from_prior = True
             case _:
                 raise ValueError(
                     "Cannot extract outcomes from the distribution of variable "
@@ -236,9 +239,15 @@ def finite_discrete_gibbs_kernel(
             model.update("_model_log_prob")
             return model.log_prob
 
-        conditional_log_probs = jax.vmap(conditional_log_prob_fn)(outcomes)
+        current_outcomes = outcomes
+        if outcomes_from_prior:
+            # the outcomes of the prior can be nodes of the model: those of this state
+            dist_node = model.vars[name].dist_node
+            current_outcomes = dist_node.init_dist().outcomes  # type: ignore
+
+        conditional_log_probs = jax.vmap(conditional_log_prob_fn)(current_outcomes)
         draw_index = jax.random.categorical(prng_key, logits=conditional_log_probs)
-        draw = outcomes[draw_index]
+        draw = current_outcomes[draw_index]
 
         return {name: draw}
 
